@@ -44,3 +44,33 @@ Example C07_av1_example :
              (enc_many 5 10 [[[7; 7; 7; 7; 7; 7]]; [[1]]; [[1; 2; 3; 4; 5; 6]]])
   = Some [DMore; DFrame [[1]]; DMore; DFrame [[1; 2; 3; 4; 5; 6]]].
 Proof. split; vm_compute; reflexivity. Qed.
+
+(* ---- the translated kernels (tools/go2coq, regenerated from the Go source on every run) ----
+   The continuation tests of decodeOBUs - the Z and Y bits of the aggregation header, the "no fragment pending" test
+   d.fragmentsSize == 0, the continuity test pkt.SequenceNumber != d.fragmentNextSeqNum, the expected next sequence
+   number (d.fragmentNextSeqNum++ and pkt.SequenceNumber + 1, both uint16), len(obus) == 1 && y ("more packets
+   needed"), len(obus) == 0 - ARE the expressions Model.decode_body / post_parse are written with. *)
+From Coq Require Import ZArith.
+From GVG Require Import Kern.
+From GV_av1 Require Import BridgeLib Bridge.
+Open Scope Z_scope.
+
+Theorem C07_av1_kernels_are_the_code : forall (h seq next fs cnt : N) (y : bool),
+  byte h -> u16 seq -> u16 next ->
+  k_av1_dec_z (Z.of_N h) = ((h / 128) mod 2 =? 1)%N /\ k_av1_dec_y (Z.of_N h) = ((h / 64) mod 2 =? 1)%N /\
+  k_av1_dec_nofrag (Z.of_N fs) = (fs =? 0)%N /\
+  k_av1_dec_gap (Z.of_N seq) (Z.of_N next) = negb (seq =? next)%N /\
+  k_av1_dec_incseq (Z.of_N next) = Z.of_N (seq_next next) /\
+  k_av1_dec_more (Z.of_N cnt) y = ((cnt =? 1)%N && y) /\
+  k_av1_dec_nextseq (Z.of_N seq) = Z.of_N (seq_next seq) /\
+  k_av1_dec_none (Z.of_N cnt) = (cnt =? 0)%N.
+Proof. exact resync_kernels_are_the_code. Qed.
+Print Assumptions C07_av1_kernels_are_the_code.
+
+Example C07_av1_example_kernels :
+  k_av1_dec_z 128 = true /\ k_av1_dec_z 127 = false /\ k_av1_dec_y 64 = true /\ k_av1_dec_y 191 = false /\
+  k_av1_dec_nofrag 0 = true /\ k_av1_dec_nofrag 1 = false /\ k_av1_dec_gap 8 8 = false /\ k_av1_dec_gap 9 8 = true /\
+  k_av1_dec_incseq 65535 = 0 /\ k_av1_dec_nextseq 65535 = 0 /\ k_av1_dec_nextseq 7 = 8 /\
+  k_av1_dec_more 1 true = true /\ k_av1_dec_more 2 true = false /\ k_av1_dec_more 1 false = false /\
+  k_av1_dec_none 0 = true /\ k_av1_dec_none 1 = false.
+Proof. vm_compute. repeat split. Qed.
